@@ -14,6 +14,7 @@ import (
 	"time"
 
 	"gscheck/engine"
+	"gscheck/normalize"
 	"gscheck/rules"
 )
 
@@ -28,6 +29,21 @@ func main() {
 		}
 	case "manifest":
 		os.Stdout.Write(rules.Manifest())
+	case "names":
+		// gscheck names [DIR]: the function list used as the normalisation baseline
+		dir := "/repo"
+		if len(os.Args) > 2 {
+			dir = os.Args[2]
+		}
+		keys, err := normalize.FuncKeys(dir)
+		if err != nil {
+			fmt.Fprintln(os.Stderr, "gscheck:", err)
+			os.Exit(2)
+		}
+		fmt.Println("# functions of the pinned tree (<package>|<receiver>|<name>); unexported functions not listed here are dissolved into their callers before analysis")
+		for _, k := range keys {
+			fmt.Println(k)
+		}
 	case "check":
 		os.Exit(check(os.Args[2:]))
 	default:
@@ -87,7 +103,23 @@ func check(args []string) int {
 	}
 	thorough := *tier == "thorough"
 	t0 := time.Now()
-	prog, err := engine.Load(*repo, thorough)
+	// dissolve helper functions the rule tables have never seen into their callers (scratch copy, removed afterwards)
+	norm, err := normalize.Run(*repo, filepath.Join(*verif, "baseline", "funcs.txt"), os.TempDir())
+	if err != nil {
+		fmt.Fprintln(os.Stderr, "gscheck: INFRASTRUCTURE ERROR:", err)
+		return 2
+	}
+	defer norm.Cleanup()
+	for _, l := range norm.Inlined {
+		fmt.Println("gscheck: normalised: dissolved new helper", l)
+	}
+	for _, l := range norm.Kept {
+		fmt.Println("gscheck: normalised: new helper left in place:", l)
+	}
+	for _, l := range norm.Notes {
+		fmt.Println("gscheck: normalised:", l)
+	}
+	prog, err := engine.Load(norm.Dir, thorough)
 	if err != nil {
 		// infrastructure error: no VIOLATION line
 		fmt.Fprintln(os.Stderr, "gscheck: INFRASTRUCTURE ERROR:", err)
@@ -100,6 +132,12 @@ func check(args []string) int {
 		t1 := time.Now()
 		p := rules.Get(id)
 		ctx := engine.NewCtx(prog, id, thorough)
+		for _, l := range norm.Inlined {
+			ctx.Note("normalisation: new helper %s dissolved into its callers before analysis", l)
+		}
+		for _, l := range norm.Kept {
+			ctx.Note("normalisation: new helper left in place: %s", l)
+		}
 		func() {
 			defer func() {
 				if r := recover(); r != nil {
